@@ -53,7 +53,7 @@ Step ==
   /\ l <= Len(JTrace) /\ l' = l + 1
   /\ CASE Ev.e = "upfx" -> /\ U' = [i \in DOMAIN U \cup {Ev.i} |-> IF i = Ev.i THEN Ev.r ELSE U[i]]
                            /\ UNCHANGED <<K, PV, KV, cur, gens, firstRetP, firstRetK>> /\ bad' = {}
-       [] Ev.e = "ukey" -> /\ K' = [i \in DOMAIN K \cup {Ev.i} |-> IF i = Ev.i THEN [a |-> Ev.a, k |-> Ev.k] ELSE K[i]]
+       [] Ev.e = "ukey" -> /\ K' = [i \in DOMAIN K \cup {Ev.i} |-> IF i = Ev.i THEN [a |-> Ev.a, k |-> Ev.k, s |-> Ev.s] ELSE K[i]]
                            /\ UNCHANGED <<U, PV, KV, cur, gens, firstRetP, firstRetK>> /\ bad' = {}
        [] Ev.e = "wpfx" -> /\ LET P == Last(PV)
                                   N == IF Ev.add THEN P \cup {Ev.i} ELSE P \ {Ev.i}
@@ -65,6 +65,10 @@ Step ==
                               IN /\ KV' = Append(KV, N) /\ PV' = Append(PV, Last(PV))
                                  /\ bad' = IF Ev.ok = (IF Ev.add THEN Ev.k \notin P ELSE Ev.k \in P) THEN {} ELSE {"C16"}
                            /\ UNCHANGED <<U, K, cur, gens, firstRetP, firstRetK>>
+       [] Ev.e = "wsrc" -> /\ PV' = Append(PV, {i \in Last(PV) : U[i].s # Ev.s}) /\ KV' = Append(KV, Last(KV)) /\ bad' = {}      \* removal by source: one atomic step
+                           /\ UNCHANGED <<U, K, cur, gens, firstRetP, firstRetK>>
+       [] Ev.e = "wsrck" -> /\ KV' = Append(KV, {k \in Last(KV) : K[k].s # Ev.s}) /\ PV' = Append(PV, Last(PV)) /\ bad' = {}
+                            /\ UNCHANGED <<U, K, cur, gens, firstRetP, firstRetK>>
        [] Ev.e = "rval" -> bad' = (IF ValOK(Ev) THEN {} ELSE {"C16"}) /\ UNCHANGED <<U, K, PV, KV, cur, gens, firstRetP, firstRetK>>
        [] Ev.e = "rget" -> bad' = (IF GetOK(Ev) THEN {} ELSE {"C16"}) /\ UNCHANGED <<U, K, PV, KV, cur, gens, firstRetP, firstRetK>>
        [] Ev.e = "renum" -> bad' = (IF EnumOK(Ev) THEN {} ELSE {"C16"}) /\ UNCHANGED <<U, K, PV, KV, cur, gens, firstRetP, firstRetK>>
@@ -84,6 +88,8 @@ Step ==
 TraceInit == /\ l = 1 /\ U = <<>> /\ K = <<>> /\ PV = <<{}>> /\ KV = <<{}>> /\ cur = 0 /\ gens = <<>>
              /\ firstRetP = <<>> /\ firstRetK = <<>> /\ bad = {}
 TraceSpec == TraceInit /\ [][Step]_tvars
+(* the position in the trace identifies the state: the version lists need not be fingerprinted at every step *)
+TView == <<l, bad>>
 OK_C16 == "C16" \notin bad
 OK_C06 == "C06" \notin bad
 TraceAccepted == TLCGet("stats").diameter - 1 = Len(JTrace)
